@@ -134,6 +134,31 @@ Theorem C15_refresh_snapshot_atomic_general :
 Proof. exact refresh_snapshot_atomic_general. Qed.
 Print Assumptions C15_refresh_snapshot_atomic_general.
 
+(* fetches in flight (a response may be slow; the issuer may rotate meanwhile): with the ONE caller of updateKeys the
+   code has, under every schedule of serve / install / rotate events the register always holds the version of the
+   newest completed fetch, never more than the newest version served, and never goes back - "key-set refreshes take
+   effect for later announces": a key withdrawn by a refresh that took effect is not trusted again *)
+Theorem C15_serial_fetch_register :
+  forall s evs, finv s -> forallb (only_fetcher 0) evs = true ->
+    Forall (fun s' => f_ret s' = f_reg s' /\ (f_reg s' <= f_srv s')%nat) (ftrace s evs) /\
+    nondecreasing (map f_reg (s :: ftrace s evs)) = true /\
+    nondecreasing (map f_srv (s :: ftrace s evs)) = true /\
+    nondecreasing (map f_ret (s :: ftrace s evs)) = true.
+Proof. exact serial_fetch_register. Qed.
+Print Assumptions C15_serial_fetch_register.
+
+Theorem C15_serial_fetch_register_init : forall v, finv (finit v).
+Proof. exact finv_init. Qed.
+Print Assumptions C15_serial_fetch_register_init.
+
+(* ... and the hypothesis "one caller" is needed: a second fetcher (a refresh on demand) lets a late response
+   overwrite a newer key set *)
+Theorem C15_two_fetchers_register_goes_back :
+  exists evs, nondecreasing (map f_reg (finit 0 :: ftrace (finit 0) evs)) = false /\
+              map f_reg (ftrace (finit 0) evs) = [0; 0; 0; 1; 0]%nat.
+Proof. exact two_fetchers_register_goes_back. Qed.
+Print Assumptions C15_two_fetchers_register_goes_back.
+
 (* F4: the pre-fix hook (jws.Verify only) accepts a token that is expired / not yet valid at `now` *)
 Theorem C15_jwt_legacy_ignores_exp_refuted :
   exists cfg keys now ih t e,
